@@ -39,7 +39,10 @@ for v in ('A', 'B', 'C', 'D'):
                 pr['T'] = ct
             if cv:
                 pr['V'] = cv
-            if pr['R'] or pr['O'] or 'F' in pr or ct or cv:
+            wf = generic.fields_written(f)
+            if wf:
+                pr['Wf'] = wf
+            if pr['R'] or pr['O'] or 'F' in pr or ct or cv or wf:
                 prof.setdefault(v, {}).setdefault(f.file, {})[f.name] = pr
             ab = generic.argument_bindings(f, prog)
             if ab:
